@@ -152,7 +152,8 @@ func (c *collection) withStoredIndexedValues(oldDoc, doc *client.Document) (*cli
 			case oldErr == nil:
 				value = oldVal.Value()
 			default:
-				continue
+				// no value at all: nil, not the default value that a new document starts with
+				value = nil
 			}
 			err = merged.Set(field.Name, value)
 			if err != nil {
